@@ -35,7 +35,7 @@ P = {
               'hist': {'type': 'hcase', 'check': 'hmismatches', 'shard': 400}},
     'search': {'rounds': 3, 'n': 60},
     'rule': 'invariants: a case is one block history (quick: 20 blocks, thorough: 40) of 0-6 transactions per block on a fresh real '
-            'application with 2-4 validators: really signed Cosmos transactions (bank send, delegate / undelegate / redelegate / cancel '
+            'application with 2-4 validators: really signed Cosmos transactions (vesting grants also in several denominations at once — the further coins vesting first — with and without the Stake option; bank send, delegate / undelegate / redelegate / cancel '
             'unbonding, withdraw rewards / commission, set withdraw address, fund community pool, create validator, unjail, gov submit / '
             'deposit / vote incl. a RegisterCoin proposal — deposits and community-pool fundings in SEVERAL denominations: the native coin, '
             'the test coin, liquid tokens, and in most histories an IBC voucher and two coins that sort before / after the others, all held '
